@@ -102,6 +102,9 @@ def obligations(tier, seed):
         a = (a[0], a[1], False)
         b_ = rnd.choice(reqs)
         obs.append(history_ob(M, [(a[0], a[1], False, rnd.randrange(3)), (b_[0], b_[1], b_[2], rnd.randrange(3))], f"k3.M3.{i}"))
+    # reconnect after disconnect: a link is made and freed (on either end), then any request follows
+    for j, pre in enumerate([[(2, 4, False, 0), (2, 4, True, 0)], [(2, 1, False, 1), (4, 1, False, 0), (2, 1, True, 2)], [(6, 1, False, 0), (2, 1, True, 0)]]):
+        obs.append(history_ob(M, pre, f"reconnect.M3.{j}"))
     if tier == "thorough":
         reqs4 = all_requests(4)
         for i in range(24):
